@@ -1238,15 +1238,15 @@ MANIFEST = {
             "unlock_never_raises, no_internal_error, failure_stops_build / check_fails_when_stopped (no keep-going), "
             "keep_going_never_stops, events_of_a_step, wasrun_lookup_exact / cook_filter_exact (under PathVid), once (under PathVid, "
             "by the invariant OnceInv over Reach: per workspace script starts and ends alternate and a workspace is started again "
-            "only after a failed execution), deps_first_partial (deps_first for parallel builds, cfg.par = true i.e. jobs > 1, "
-            "by the invariant DepsInv over Reach; the sequential -j1 scheduler path spawnSeq/waitOnly/results is NOT covered by "
-            "the proof, there deps_first stays a `_goal` whose executable form is evaluated on every replayed and explored "
-            "schedule), schedule_independent_partial_par (parallel builds, with the extra hypothesis ReadsDeps: what a script "
-            "reads, bidDeps, is among the valid deps of its step) and schedule_independent_partial (any mode, with ReadsDeps and "
-            "the state form of deps_first as hypotheses). schedule_independent as stated is REFUTED for the model by a "
-            "kernel-checked witness (schedule_independent_refuted: the statement lacks ReadsDeps; the witness is not a Bob "
-            "project, getAllDepSteps contains arguments and tools); its executable form valueInv is still evaluated on every "
-            "schedule. "
+            "only after a failed execution), deps_first (under PathVid, at full strength: parallel and sequential -j1 scheduler, by "
+            "the invariant Full.DepsInv over Reach: along every continuation each operation that leads to a script start is "
+            "preceded by the _cook / spawn / gather resp. spawnSeq / waitOnly / results of its dependencies; "
+            "deps_first_partial is the earlier parallel-only version), schedule_independent_fixed (the dataflow theorem with "
+            "the added hypothesis ReadsDeps: what a script reads, bidDeps, is among the valid deps of its step; all modes; "
+            "schedule_independent_partial / _partial_par are earlier conditional versions). schedule_independent as originally "
+            "stated is REFUTED for the model by a kernel-checked witness (schedule_independent_refuted: the statement lacks "
+            "ReadsDeps; the witness is not a Bob project, getAllDepSteps contains arguments and tools). The executable forms "
+            "depsFirst / onceLegal / valueInv are still evaluated on every replayed and explored schedule. "
             "keepgoing_complete (DESIGN 5c) is refuted by implementation traces. The model is tied to the current source by "
             "replaying, event by event and state by state, the schedules that the REAL cook (bob dev in-process on a real asyncio "
             "loop with harness-controlled script completion) and the real JobServerSemaphore on a real FIFO took; the property "
